@@ -679,8 +679,19 @@ fn parse_type(p: &mut Parser) -> Result<Option<Type>, ErrorSet> {
     Ok(lhs)
 }
 
-/// Parse a type atom
+/// Parse a type atom, followed by any number of `?` suffixes
+///
+/// `A?` is the notation that types are displayed with for the option type `1 + A`.
 fn parse_type_atom(p: &mut Parser) -> Result<Option<Type>, ErrorSet> {
+    let mut atom = parse_type_atom_inner(p)?;
+    while p.eat(&Token::Question) {
+        atom = atom.map(|ty| Type::Sum(Box::new(Type::One), Box::new(ty)));
+    }
+    Ok(atom)
+}
+
+/// Parse a type atom
+fn parse_type_atom_inner(p: &mut Parser) -> Result<Option<Type>, ErrorSet> {
     match p.peek().cloned() {
         Some(Token::One) => {
             p.advance();
